@@ -494,6 +494,20 @@ type Lemma struct {
 	Props   []string
 }
 
+// Refinement: the proved contract of an implementation implies the (otherwise assumed) contract of an interface method,
+// under a coupling predicate that defines the interface's ghost view in terms of the implementation's state.
+type Refinement struct {
+	Impl     string // contract key of the implementation (pkg::(*T).M)
+	Iface    string // contract key of the interface method (pkg::(I).M)
+	Label    string
+	Coupling Expr
+	Clauses  []string // labels of the interface ensures to prove (empty = all)
+	Text     string
+	Pkg      string
+	Props    []string
+	File     string
+}
+
 type GhostVar struct {
 	Name string
 	Type string
@@ -512,6 +526,7 @@ type Spec struct {
 	Specs   map[string]*SpecFunc
 	SpecOrd []string
 	Lemmas  []*Lemma
+	Refines []*Refinement
 	Ghosts  map[string]*GhostVar
 	GhostOrd []string
 	Invs    []*TypeInv
@@ -529,7 +544,7 @@ var sinceRe = regexp.MustCompile(`\s+since\s+"([^"]+)"$`)
 var usingRe = regexp.MustCompile(`\s+using\s+([A-Za-z0-9_, \-]+)$`)
 var propsRe = regexp.MustCompile(`\s+props\s+([A-Z0-9, ]+)$`)
 
-var directiveKw = []string{"interface ", "trusted", "func ", "extern ", "requires ", "ensures ", "as-is ", "modifies ", "loop ", "pure-def ", "pure", "panics-never", "iterator-body", "inline", "opaque", "spec ", "axiom ", "lemma ", "ghost ", "invariant ", "package ", "const ", "props "}
+var directiveKw = []string{"interface ", "trusted", "func ", "extern ", "requires ", "ensures ", "as-is ", "modifies ", "loop ", "pure-def ", "pure", "panics-never", "iterator-body", "inline", "opaque", "spec ", "axiom ", "lemma ", "refines ", "ghost ", "invariant ", "package ", "const ", "props "}
 
 func isDirective(l string) bool {
 	for _, k := range directiveKw {
@@ -826,6 +841,33 @@ func (sp *Spec) ParseContractFile(path, defaultPkg string) error {
 				c.Label = fmt.Sprintf("L%d", d.line)
 			}
 			sp.Lemmas = append(sp.Lemmas, &Lemma{Label: c.Label, E: c.E, Text: c.Text, Pkg: pkg, Axiom: ax, Using: c.Using, File: path, Props: props})
+			cur = nil
+		case strings.HasPrefix(l, "refines "):
+			// refines "pkg::(*T).M" "pkg::(I).M" [label] coupling <expr> props Cxx
+			rest := strings.TrimSpace(l[8:])
+			var props []string
+			if m := propsRe.FindStringSubmatch(rest); m != nil {
+				for _, u := range strings.Split(m[1], ",") {
+					props = append(props, strings.TrimSpace(u))
+				}
+				rest = rest[:len(rest)-len(m[0])]
+			}
+			// optional: clauses a, b  (only these labelled ensures of the interface contract; the others are ghost definitions)
+			m := regexp.MustCompile(`^"([^"]+)"\s+"([^"]+)"\s+\[([A-Za-z0-9_]+)\]\s+(?:clauses\s+([A-Za-z0-9_, ]+?)\s+)?coupling\s+(.*)$`).FindStringSubmatch(rest)
+			if m == nil {
+				return fail("bad refines directive")
+			}
+			ce, err := ParseExpr(m[5])
+			if err != nil {
+				return fail("refines coupling: %v", err)
+			}
+			rf := &Refinement{Impl: m[1], Iface: m[2], Label: m[3], Coupling: ce, Text: m[5], Pkg: pkg, Props: props, File: path}
+			for _, c := range strings.Split(m[4], ",") {
+				if c = strings.TrimSpace(c); c != "" {
+					rf.Clauses = append(rf.Clauses, c)
+				}
+			}
+			sp.Refines = append(sp.Refines, rf)
 			cur = nil
 		case strings.HasPrefix(l, "ghost "):
 			m := regexp.MustCompile(`^ghost var ([A-Za-z0-9_]+)\s+(.*)$`).FindStringSubmatch(l)
